@@ -2346,11 +2346,14 @@ static int32_t tls13ParseNewSessionTicket(ssl_t *ssl, psParseBuf_t *pb)
         if (ssl->sid->sessionTicket)
         {
             psFree(ssl->sid->sessionTicket, ssl->sid->pool);
+            ssl->sid->sessionTicket = NULL;
+            ssl->sid->sessionTicketLen = 0;
         }
 # endif
         if (ssl->sid->psk)
         {
             tls13FreePsk(ssl->sid->psk, ssl->sid->pool);
+            ssl->sid->psk = NULL;
         }
     }
     else
